@@ -156,6 +156,37 @@ func genC14(r *Rng, id int, tier string) *Sx {
 		if len(nr) == 0 {
 			nr = []NPRule{{}}
 		}
+		if r.P(35) {
+			// the new rule names an ipBlock CIDR the policy already uses, with other exceptions: the partition of the
+			// address space must still separate the two rules' ranges
+			var ipPeers []NPPeer
+			for _, rules := range [][]NPRule{p.Ingress, p.Egress} {
+				for _, ru := range rules {
+					for _, pe := range ru.Peers {
+						if pe.IsIP {
+							ipPeers = append(ipPeers, pe)
+						}
+					}
+				}
+			}
+			if len(ipPeers) > 0 {
+				q := Pick(r, ipPeers)
+				twin := NPPeer{IsIP: true, CIDR: q.CIDR}
+				if len(q.Except) == 0 || r.P(50) {
+					if fresh := genNPPeer(r, true); fresh.IsIP {
+						twin.Except = nil // no exceptions where the old rule has some (or a fresh, unrelated list)
+					}
+				} else {
+					twin.Except = append([]string{}, q.Except[:len(q.Except)-1]...)
+				}
+				nr[0].Peers = append([]NPPeer{twin}, nr[0].Peers...)
+				for i := range nr[0].Ports { // named ports must not meet the new ip peer on egress
+					if nr[0].Ports[i].Kind == "name" {
+						nr[0].Ports[i] = NPPort{Kind: "num", Num: 80}
+					}
+				}
+			}
+		}
 		if d == "I" {
 			p.Ingress = append(p.Ingress, nr[0])
 			return mk("addrule", namesSx("sel-egress", nil), namesSx("sel-ingress", selectedBy(a, orig, "I")))
